@@ -274,6 +274,9 @@ fn driver(out_dir: &str, tier: &str, prop: &str) {
             if oplog_sel.contains(&i) {
                 f |= F_OPLOG;
             }
+            if inp.coq && inp.text.len() <= 2500 {
+                f |= F_LOOPS;
+            }
             if c09 {
                 f |= F_FORMAT | F_MODES;
             }
@@ -301,6 +304,8 @@ fn driver(out_dir: &str, tier: &str, prop: &str) {
     let mut tree_cases: Vec<String> = vec![];
     let mut oplog_cases: Vec<String> = vec![];
     let mut oplog_f1 = 0u64;
+    let mut loops_cases: Vec<String> = vec![];
+    let (mut loop_runs, mut loop_iters) = (0u64, 0u64);
     let mut samples: Vec<String> = vec![];
     for (i, (inp, o)) in inputs.iter().zip(outcomes.iter()).enumerate() {
         *by_cat.entry(inp.cat.clone()).or_default() += 1;
@@ -363,6 +368,12 @@ fn driver(out_dir: &str, tier: &str, prop: &str) {
                     ));
                 }
             }
+            loop_runs += v["n_loop_runs"].as_u64().unwrap_or(0);
+            loop_iters += v["n_loop_iters"].as_u64().unwrap_or(0);
+            // loop runs: every input without an unclassified failure
+            if let Some(l) = v["loops"].as_str().filter(|_| fails_of(v).iter().all(|(_, _, g)| g == SIG_F1)) {
+                loops_cases.push(l.to_string());
+            }
             // the op log: inputs whose only failures are the known signature F1 stay in (the model's
             // side conditions must fail exactly there); other failing inputs are decided by the oracle
             if let Some(l) = v["oplog"].as_str().filter(|_| fails_of(v).iter().all(|(_, _, g)| g == SIG_F1)) {
@@ -392,7 +403,7 @@ fn driver(out_dir: &str, tier: &str, prop: &str) {
             continue;
         }
         let inp = &inputs[*i];
-        let flags = jobs[*i].0 & !(F_LEXTERM | F_TREE | F_OPLOG);
+        let flags = jobs[*i].0 & !(F_LEXTERM | F_TREE | F_OPLOG | F_LOOPS);
         let crash = class == "hang" || class == "died";
         let to = if class == "hang" { Duration::from_secs(15) } else { Duration::from_secs(40) };
         let (min, tests) = minimise(&mut p, flags, &inp.text, class, sig, to);
@@ -423,10 +434,11 @@ fn driver(out_dir: &str, tier: &str, prop: &str) {
 
     // ---- case shards ----
     let header =
-        "From Syntax Require Import Lexer Green TokenStream Corr.\nOpen Scope string_scope.\nOpen Scope N_scope.\n";
+        "From Syntax Require Import Lexer Green TokenStream Recovery Corr.\nOpen Scope string_scope.\nOpen Scope N_scope.\n";
     let n_lex_shards = write_shards(out_dir, "lex", header, "check_lex", &lex_cases, 400_000, 400);
     let n_tree_shards = write_shards(out_dir, "tree", header, "check_tree", &tree_cases, 600_000, 60);
     let n_oplog_shards = write_shards(out_dir, "oplog", header, "check_oplog", &oplog_cases, 500_000, 80);
+    let n_loops_shards = write_shards(out_dir, "loops", header, "check_loops", &loops_cases, 600_000, 400);
 
     let n = inputs.len() as u64;
     let summary = json!({
@@ -441,6 +453,8 @@ fn driver(out_dir: &str, tier: &str, prop: &str) {
         "expr_mode_tree_does_not_cover_text": expr_not_cover, "stmts_mode_tree_does_not_cover_text": stmts_not_cover,
         "lex_cases": lex_cases.len(), "lex_shards": n_lex_shards,
         "tree_cases": tree_cases.len(), "tree_shards": n_tree_shards,
+        "loops_cases": loops_cases.len(), "loops_shards": n_loops_shards,
+        "real_parser_loop_runs_watched": loop_runs, "real_parser_loop_iterations_watched": loop_iters,
         "oplog_cases": oplog_cases.len(), "oplog_shards": n_oplog_shards, "oplog_cases_with_F1": oplog_f1,
         "oracle_failure_classes": class_counts, "oracle_failing_inputs": failing.len(),
         "trivia_lists_with_signature_F1": f1_lists,
